@@ -375,7 +375,10 @@ func (p *Program) RunHarnessOn(opt *Options, pool *Pool) *HarnessResult {
 	// wall-clock budget of one instance (param timeBudget, seconds): the unchanged tree needs at
 	// most a few minutes per instance; changed code can make the path space or the queries
 	// explode, and a run that never ends decides nothing
-	budget := 1500 * time.Second
+	budget := 7200 * time.Second
+	if v, err := strconv.Atoi(os.Getenv("VERIF_TIME_BUDGET")); err == nil && v > 0 {
+		budget = time.Duration(v) * time.Second
+	}
 	if v, err := strconv.Atoi(opt.Params["timeBudget"]); err == nil && v > 0 {
 		budget = time.Duration(v) * time.Second
 	}
